@@ -215,6 +215,7 @@ def handleExact (kind : String) (ws : List String) : Option String := do
         let sf ← ratToFloat pk.1
         let d := Float.sqrt sf
         some s!"v{vert} {showRat pk.1} {hx (if inside then d else -d)}"
+      else if pk.1 == 0 then some s!"e{pk.2.2.2.2} on"
       else some s!"e{pk.2.2.2.2} {boolStr inside}"
   | _ => none
 
